@@ -296,33 +296,48 @@ def h2_image(c1: int, c2: int, c3: int, dq: bool, sq: bool) -> bool:
     return wf_html(r.render(tok))
 
 
-ADDR = "ABCDEFGHIJKLMNOPQRSTUVWXYZabcdefghijklmnopqrstuvwxyz0123456789.!#$%&'*+/=?^_`{|}~-@"
+def autolink_cp(c):
+    """what AutoLink.pattern's URI branch can deliver as target: anything but space, '<', '>'
+    (the e-mail branch delivers a subset of it)"""
+    return cp_ok(c) and c != 32 and c != 60 and c != 62 and c != 10
 
 
-def autolink_cp(c, mailto):
-    """what AutoLink.pattern can deliver: no space, '<', '>'; e-mail targets use the address alphabet only"""
-    if c == 32 or c == 60 or c == 62:
-        return False
-    if mailto:     # the address alphabet of AutoLink.pattern, as code-point ranges
-        return (c == 33 or 35 <= c <= 39 or 42 <= c <= 43 or 45 <= c <= 57 or c == 61 or 63 <= c <= 90
-                or 94 <= c <= 126)
-    return cp_ok(c)
+def is_mailto(target):
+    """AutoLink.__init__: mailto is COMPUTED from the target ('@' present, 'mailto' absent), it is not
+    tied to the e-mail branch of the pattern"""
+    return '@' in target and 'mailto' not in target.casefold()
 
 
-@lemma('H2.autolink', 'C08', quick=by('mailto', [False, True], [{'k': 1}, {'k': 2}]), thorough=by('mailto', [False, True], [{'k': 1}, {'k': 2}, {'k': 3}]), timeout=900,
+@lemma('H2.autolink', 'C08', quick=[{'k': 1, 'at': 0}, {'k': 2, 'at': 0}, {'k': 2, 'at': 1}, {'k': 2, 'at': 2}, {'k': 3, 'at': 1}],
+       thorough=[{'k': k, 'at': a} for k in (1, 2, 3, 4) for a in range(0, k + 1)], timeout=900,
        stubs=['urllib.parse.quote -> contract stub', 'token built directly'],
-       covers=['html_renderer.py:HtmlRenderer.render_auto_link'])
-def h2_autolink(c1: int, c2: int, c3: int, mailto: bool, dq: bool, sq: bool) -> bool:
+       covers=['html_renderer.py:HtmlRenderer.render_auto_link', 'span_token.py:AutoLink.__init__'],
+       note="target of k symbolic code points (no space, '<', '>'), with an '@' forced at position at-1 (at=0: none): the mailto flag is what AutoLink.__init__ computes")
+def h2_autolink(c1: int, c2: int, c3: int, c4: int, dq: bool, sq: bool) -> bool:
     """
-    pre: fixed(mailto, 'mailto')
-    pre: autolink_cp(c1, mailto) and (P('k') < 2 or autolink_cp(c2, mailto)) and (P('k') < 3 or autolink_cp(c3, mailto))
+    pre: all_ok(autolink_cp, P('k'), c1, c2, c3, c4)
+    pre: at_sign(P('at'), c1, c2, c3, c4)
     post: _
     """
     install_quote()
     r = _renderer(dq, sq)
-    target = S(P('k'), c1, c2, c3)
+    target = S(P('k'), c1, c2, c3, c4)
+    mailto = P('at') > 0                       # an '@' is present and 'mailto' needs 6 letters: not in <= 4 characters
     tok = mk(span_token.AutoLink, target=target, mailto=mailto, children=(raw(target),))
     return wf_html(r.render(tok))
+
+
+def at_sign(at, *cs):
+    """partition: position of the (first) '@' in the target, 0 = no '@' at all"""
+    k = P('k')
+    for i, c in enumerate(cs[:k]):
+        if at == 0 and c == 64:
+            return False
+        if at > 0 and i < at - 1 and c == 64:
+            return False
+        if at > 0 and i == at - 1 and c != 64:
+            return False
+    return True
 
 
 @lemma('H2.code', 'C08', quick=by('fenced', [False, True], holes(['language', 'content'], 2)), thorough=by('fenced', [False, True], holes(['language', 'content'], 3)), timeout=900,
